@@ -50,6 +50,11 @@ func (Seed) IsPrivate() bool {
 	return true
 }
 
+// HardenedOnly always returns true, SLIP-10 does not define non-hardened child keys for Ed25519.
+func (Seed) HardenedOnly() bool {
+	return true
+}
+
 // Public returns the corresponding PublicKey.
 func (s Seed) Public() slip10.Key {
 	priv := ed25519.NewKeyFromSeed(s)
